@@ -1,6 +1,7 @@
 import SoundeventModel.Ops.Common
 import SoundeventModel.Aoef.Fields
 import SoundeventModel.Aoef.Valid
+import SoundeventModel.Aoef.File
 namespace SE.Ops.C01
 open Lean SE SE.Aoef SE.Paths
 
@@ -81,6 +82,15 @@ def handle (op : String) (a : Json) : Except String Json := do
     -- the loader followed by the relational validators pydantic runs on the constructed objects (C04)
     let d : Doc ← fromJson? (← fld a "doc")
     return exceptJ toJson (loadChecked d (← optDir a "audio_dir"))
+  | "load_gate" =>
+    let r : LoadRequest := {
+      fileExists := ← fldBool a "exists", suffixJson := ← fldBool a "suffix_json",
+      format := (fldOpt a "format").bind (·.getStr?.toOption),
+      reqType := (fldOpt a "type").bind (·.getStr?.toOption),
+      version := ← fldStr a "version", docType := ← fldStr a "doc_type" }
+    return match loadGate r with
+      | .ok _ => Json.mkObj [("ok", Json.bool true)]
+      | .error e => Json.mkObj [("raise", Json.str e.name)]
   | "roundtrip" =>
     let c ← getCollection a
     let n ← fldNat a "n"
@@ -89,6 +99,14 @@ def handle (op : String) (a : Json) : Except String Json := do
     -- is the collection inside the quantifier of C01 / C02 (coherent sharing, distinct feature labels, distinct members)?
     let c ← getCollection a
     return boolJ (wfB c)
+  | "history" =>
+    -- consecutive save/load round trips in one process: every step is judged on its own
+    let steps ← fldArr a "steps"
+    let outs ← steps.mapM fun st => do
+      let c ← getCollection st
+      let n ← fldNat st "n"
+      pure (exceptJ toJson (cycles (← optDir st "save_dir") (← optDir st "load_dir") n c))
+    return arrJ outs
   | "echo" =>
     -- parse a collection and write it back (validates the harness' encoding of objects)
     let c ← getCollection a
